@@ -141,7 +141,7 @@ theorem no_reflection_bytes_intgroup (IP : IntGroupParams) (hp : 1 < IP.p) (hq :
     (hx : extractMessage i.side msg = .ok ob) :
     ((i.finish msg).2 = .error .ReflectionThwarted ∨ ∃ err, (intGroup IP).dec ob = .error err ∧
         (i.finish msg).2 = .error err) ∧ ∀ k, (i.finish msg).2 ≠ .ok k :=
-  C06.no_reflection_bytes (intGroupSpec IP hp hq hg hctor) i hf hob hb hx
+  C06.no_reflection_bytes (G := (intGroup IP)) (intGroupSpec IP hp hq hg hctor) i hf hob hb hx
 
 /-- `no_reflection_bytes` for the shipped 1024-bit integer group (generated constants). -/
 theorem no_reflection_bytes_1024 
@@ -150,7 +150,7 @@ theorem no_reflection_bytes_1024
     (hx : extractMessage i.side msg = .ok ob) :
     ((i.finish msg).2 = .error .ReflectionThwarted ∨ ∃ err, G1024.dec ob = .error err ∧
         (i.finish msg).2 = .error err) ∧ ∀ k, (i.finish msg).2 ≠ .ok k :=
-  C06.no_reflection_bytes spec1024 i hf hob hb hx
+  C06.no_reflection_bytes (G := G1024) spec1024 i hf hob hb hx
 
 /-- `no_reflection_bytes` for the shipped 2048-bit integer group (generated constants). -/
 theorem no_reflection_bytes_2048 
@@ -159,7 +159,7 @@ theorem no_reflection_bytes_2048
     (hx : extractMessage i.side msg = .ok ob) :
     ((i.finish msg).2 = .error .ReflectionThwarted ∨ ∃ err, G2048.dec ob = .error err ∧
         (i.finish msg).2 = .error err) ∧ ∀ k, (i.finish msg).2 ≠ .ok k :=
-  C06.no_reflection_bytes spec2048 i hf hob hb hx
+  C06.no_reflection_bytes (G := G2048) spec2048 i hf hob hb hx
 
 /-- `no_reflection_bytes` for the shipped 3072-bit integer group (generated constants). -/
 theorem no_reflection_bytes_3072 
@@ -168,7 +168,7 @@ theorem no_reflection_bytes_3072
     (hx : extractMessage i.side msg = .ok ob) :
     ((i.finish msg).2 = .error .ReflectionThwarted ∨ ∃ err, G3072.dec ob = .error err ∧
         (i.finish msg).2 = .error err) ∧ ∀ k, (i.finish msg).2 ≠ .ok k :=
-  C06.no_reflection_bytes spec3072 i hf hob hb hx
+  C06.no_reflection_bytes (G := G3072) spec3072 i hf hob hb hx
 
 /-- `no_reflection_bytes` for Ed25519 with the constants generated from the current source. -/
 theorem no_reflection_bytes_ed25519 
@@ -177,7 +177,7 @@ theorem no_reflection_bytes_ed25519
     (hx : extractMessage i.side msg = .ok ob) :
     ((i.finish msg).2 = .error .ReflectionThwarted ∨ ∃ err, GEd.dec ob = .error err ∧
         (i.finish msg).2 = .error err) ∧ ∀ k, (i.finish msg).2 ≠ .ok k :=
-  C06.no_reflection_bytes specGen i hf hob hb hx
+  C06.no_reflection_bytes (G := GEd) specGen i hf hob hb hx
 
 /-- `no_reflection_bytes` for Ed25519 with the literal RFC 8032 constants. -/
 theorem no_reflection_bytes_ed25519_published 
@@ -186,7 +186,7 @@ theorem no_reflection_bytes_ed25519_published
     (hx : extractMessage i.side msg = .ok ob) :
     ((i.finish msg).2 = .error .ReflectionThwarted ∨ ∃ err, GEdPub.dec ob = .error err ∧
         (i.finish msg).2 = .error err) ∧ ∀ k, (i.finish msg).2 ≠ .ok k :=
-  C06.no_reflection_bytes specPublished i hf hob hb hx
+  C06.no_reflection_bytes (G := GEdPub) specPublished i hf hob hb hx
 
 /-- a started session never accepts its own outbound element, whatever single label `c` is put in
 front of it (own side byte: `OffSides`; on side `S` the accepted label is `S` itself: reflection) -/
@@ -202,42 +202,42 @@ theorem own_message_refused_intgroup (IP : IntGroupParams) (hp : 1 < IP.p) (hq :
     {i : Inst (intGroup IP)} {x : ℤ} {ob : Bytes}
     (h : Ready (intGroupSpec IP hp hq hg hctor) i x ob) (c : Nat) :
     ∀ k, (i.finish (c :: ob)).2 ≠ .ok k :=
-  C06.own_message_refused (intGroupSpec IP hp hq hg hctor) h c
+  C06.own_message_refused (G := (intGroup IP)) (intGroupSpec IP hp hq hg hctor) h c
 
 /-- `own_message_refused` for the shipped 1024-bit integer group (generated constants). -/
 theorem own_message_refused_1024 
     {i : Inst G1024} {x : ℤ} {ob : Bytes}
     (h : Ready spec1024 i x ob) (c : Nat) :
     ∀ k, (i.finish (c :: ob)).2 ≠ .ok k :=
-  C06.own_message_refused spec1024 h c
+  C06.own_message_refused (G := G1024) spec1024 h c
 
 /-- `own_message_refused` for the shipped 2048-bit integer group (generated constants). -/
 theorem own_message_refused_2048 
     {i : Inst G2048} {x : ℤ} {ob : Bytes}
     (h : Ready spec2048 i x ob) (c : Nat) :
     ∀ k, (i.finish (c :: ob)).2 ≠ .ok k :=
-  C06.own_message_refused spec2048 h c
+  C06.own_message_refused (G := G2048) spec2048 h c
 
 /-- `own_message_refused` for the shipped 3072-bit integer group (generated constants). -/
 theorem own_message_refused_3072 
     {i : Inst G3072} {x : ℤ} {ob : Bytes}
     (h : Ready spec3072 i x ob) (c : Nat) :
     ∀ k, (i.finish (c :: ob)).2 ≠ .ok k :=
-  C06.own_message_refused spec3072 h c
+  C06.own_message_refused (G := G3072) spec3072 h c
 
 /-- `own_message_refused` for Ed25519 with the constants generated from the current source. -/
 theorem own_message_refused_ed25519 
     {i : Inst GEd} {x : ℤ} {ob : Bytes}
     (h : Ready specGen i x ob) (c : Nat) :
     ∀ k, (i.finish (c :: ob)).2 ≠ .ok k :=
-  C06.own_message_refused specGen h c
+  C06.own_message_refused (G := GEd) specGen h c
 
 /-- `own_message_refused` for Ed25519 with the literal RFC 8032 constants. -/
 theorem own_message_refused_ed25519_published 
     {i : Inst GEdPub} {x : ℤ} {ob : Bytes}
     (h : Ready specPublished i x ob) (c : Nat) :
     ∀ k, (i.finish (c :: ob)).2 ≠ .ok k :=
-  C06.own_message_refused specPublished h c
+  C06.own_message_refused (G := GEdPub) specPublished h c
 
 /-- **the message `start()` returned is refused by the session that sent it** (all three classes) -/
 theorem own_start_message_refused {G : Group} (S : GroupSpec G) {P : Params G} (hP : ValidParams S P)
@@ -254,7 +254,7 @@ theorem own_start_message_refused_intgroup (IP : IntGroupParams) (hp : 1 < IP.p)
     {side : Side} {pw idA idB : Bytes} {ent : Entropy} {a : Inst (intGroup IP)} {m : Bytes}
     (h : (Inst.new side pw idA idB P ent).start = (a, .ok m)) :
     ∀ k, (a.finish m).2 ≠ .ok k :=
-  C06.own_start_message_refused (intGroupSpec IP hp hq hg hctor) (PropAux.validParams_of_mkParams _ hP) h
+  C06.own_start_message_refused (G := (intGroup IP)) (intGroupSpec IP hp hq hg hctor) (PropAux.validParams_of_mkParams _ hP) h
 
 /-- `own_start_message_refused` for the shipped 1024-bit integer group (generated constants); the parameter set is any one built by `mkParams` (valid by `arb_valid`). -/
 theorem own_start_message_refused_1024 {mSeed nSeed sSeed : Bytes} {P : Params G1024}
@@ -262,7 +262,7 @@ theorem own_start_message_refused_1024 {mSeed nSeed sSeed : Bytes} {P : Params G
     {side : Side} {pw idA idB : Bytes} {ent : Entropy} {a : Inst G1024} {m : Bytes}
     (h : (Inst.new side pw idA idB P ent).start = (a, .ok m)) :
     ∀ k, (a.finish m).2 ≠ .ok k :=
-  C06.own_start_message_refused spec1024 (PropAux.validParams_of_mkParams _ hP) h
+  C06.own_start_message_refused (G := G1024) spec1024 (PropAux.validParams_of_mkParams _ hP) h
 
 /-- `own_start_message_refused` for the shipped 2048-bit integer group (generated constants); the parameter set is any one built by `mkParams` (valid by `arb_valid`). -/
 theorem own_start_message_refused_2048 {mSeed nSeed sSeed : Bytes} {P : Params G2048}
@@ -270,7 +270,7 @@ theorem own_start_message_refused_2048 {mSeed nSeed sSeed : Bytes} {P : Params G
     {side : Side} {pw idA idB : Bytes} {ent : Entropy} {a : Inst G2048} {m : Bytes}
     (h : (Inst.new side pw idA idB P ent).start = (a, .ok m)) :
     ∀ k, (a.finish m).2 ≠ .ok k :=
-  C06.own_start_message_refused spec2048 (PropAux.validParams_of_mkParams _ hP) h
+  C06.own_start_message_refused (G := G2048) spec2048 (PropAux.validParams_of_mkParams _ hP) h
 
 /-- `own_start_message_refused` for the shipped 3072-bit integer group (generated constants); the parameter set is any one built by `mkParams` (valid by `arb_valid`). -/
 theorem own_start_message_refused_3072 {mSeed nSeed sSeed : Bytes} {P : Params G3072}
@@ -278,7 +278,7 @@ theorem own_start_message_refused_3072 {mSeed nSeed sSeed : Bytes} {P : Params G
     {side : Side} {pw idA idB : Bytes} {ent : Entropy} {a : Inst G3072} {m : Bytes}
     (h : (Inst.new side pw idA idB P ent).start = (a, .ok m)) :
     ∀ k, (a.finish m).2 ≠ .ok k :=
-  C06.own_start_message_refused spec3072 (PropAux.validParams_of_mkParams _ hP) h
+  C06.own_start_message_refused (G := G3072) spec3072 (PropAux.validParams_of_mkParams _ hP) h
 
 /-- `own_start_message_refused` for Ed25519 with the constants generated from the current source; the parameter set is any one built by `mkParams` (valid by `arb_valid`). -/
 theorem own_start_message_refused_ed25519 {mSeed nSeed sSeed : Bytes} {P : Params GEd}
@@ -286,7 +286,7 @@ theorem own_start_message_refused_ed25519 {mSeed nSeed sSeed : Bytes} {P : Param
     {side : Side} {pw idA idB : Bytes} {ent : Entropy} {a : Inst GEd} {m : Bytes}
     (h : (Inst.new side pw idA idB P ent).start = (a, .ok m)) :
     ∀ k, (a.finish m).2 ≠ .ok k :=
-  C06.own_start_message_refused specGen (PropAux.validParams_of_mkParams _ hP) h
+  C06.own_start_message_refused (G := GEd) specGen (PropAux.validParams_of_mkParams _ hP) h
 
 /-- `own_start_message_refused` for Ed25519 with the literal RFC 8032 constants; the parameter set is any one built by `mkParams` (valid by `arb_valid`). -/
 theorem own_start_message_refused_ed25519_published {mSeed nSeed sSeed : Bytes} {P : Params GEdPub}
@@ -294,7 +294,7 @@ theorem own_start_message_refused_ed25519_published {mSeed nSeed sSeed : Bytes} 
     {side : Side} {pw idA idB : Bytes} {ent : Entropy} {a : Inst GEdPub} {m : Bytes}
     (h : (Inst.new side pw idA idB P ent).start = (a, .ok m)) :
     ∀ k, (a.finish m).2 ≠ .ok k :=
-  C06.own_start_message_refused specPublished (PropAux.validParams_of_mkParams _ hP) h
+  C06.own_start_message_refused (G := GEdPub) specPublished (PropAux.validParams_of_mkParams _ hP) h
 
 /-- **restored sessions, side byte.**  Whatever bytes were deserialised, the session returned by
 `from_serialized` enforces the side check of the class it was restored as (every group object). -/
@@ -330,42 +330,42 @@ theorem own_message_refused_restored_intgroup (IP : IntGroupParams) (hp : 1 < IP
     (hP : mkParams (intGroup IP) mSeed nSeed sSeed = .ok P)
     {side : Side} {data : Bytes} {i' : Inst (intGroup IP)} (hr : fromSerialized side data P = .ok i') :
     ∃ ob, i'.outbound = some ob ∧ ∀ (c : Nat) (k : Bytes), (i'.finish (c :: ob)).2 ≠ .ok k :=
-  C06.own_message_refused_restored (intGroupSpec IP hp hq hg hctor) (PropAux.validParams_of_mkParams _ hP) hr
+  C06.own_message_refused_restored (G := (intGroup IP)) (intGroupSpec IP hp hq hg hctor) (PropAux.validParams_of_mkParams _ hP) hr
 
 /-- `own_message_refused_restored` for the shipped 1024-bit integer group (generated constants); the parameter set is any one built by `mkParams` (valid by `arb_valid`). -/
 theorem own_message_refused_restored_1024 {mSeed nSeed sSeed : Bytes} {P : Params G1024}
     (hP : mkParams G1024 mSeed nSeed sSeed = .ok P)
     {side : Side} {data : Bytes} {i' : Inst G1024} (hr : fromSerialized side data P = .ok i') :
     ∃ ob, i'.outbound = some ob ∧ ∀ (c : Nat) (k : Bytes), (i'.finish (c :: ob)).2 ≠ .ok k :=
-  C06.own_message_refused_restored spec1024 (PropAux.validParams_of_mkParams _ hP) hr
+  C06.own_message_refused_restored (G := G1024) spec1024 (PropAux.validParams_of_mkParams _ hP) hr
 
 /-- `own_message_refused_restored` for the shipped 2048-bit integer group (generated constants); the parameter set is any one built by `mkParams` (valid by `arb_valid`). -/
 theorem own_message_refused_restored_2048 {mSeed nSeed sSeed : Bytes} {P : Params G2048}
     (hP : mkParams G2048 mSeed nSeed sSeed = .ok P)
     {side : Side} {data : Bytes} {i' : Inst G2048} (hr : fromSerialized side data P = .ok i') :
     ∃ ob, i'.outbound = some ob ∧ ∀ (c : Nat) (k : Bytes), (i'.finish (c :: ob)).2 ≠ .ok k :=
-  C06.own_message_refused_restored spec2048 (PropAux.validParams_of_mkParams _ hP) hr
+  C06.own_message_refused_restored (G := G2048) spec2048 (PropAux.validParams_of_mkParams _ hP) hr
 
 /-- `own_message_refused_restored` for the shipped 3072-bit integer group (generated constants); the parameter set is any one built by `mkParams` (valid by `arb_valid`). -/
 theorem own_message_refused_restored_3072 {mSeed nSeed sSeed : Bytes} {P : Params G3072}
     (hP : mkParams G3072 mSeed nSeed sSeed = .ok P)
     {side : Side} {data : Bytes} {i' : Inst G3072} (hr : fromSerialized side data P = .ok i') :
     ∃ ob, i'.outbound = some ob ∧ ∀ (c : Nat) (k : Bytes), (i'.finish (c :: ob)).2 ≠ .ok k :=
-  C06.own_message_refused_restored spec3072 (PropAux.validParams_of_mkParams _ hP) hr
+  C06.own_message_refused_restored (G := G3072) spec3072 (PropAux.validParams_of_mkParams _ hP) hr
 
 /-- `own_message_refused_restored` for Ed25519 with the constants generated from the current source; the parameter set is any one built by `mkParams` (valid by `arb_valid`). -/
 theorem own_message_refused_restored_ed25519 {mSeed nSeed sSeed : Bytes} {P : Params GEd}
     (hP : mkParams GEd mSeed nSeed sSeed = .ok P)
     {side : Side} {data : Bytes} {i' : Inst GEd} (hr : fromSerialized side data P = .ok i') :
     ∃ ob, i'.outbound = some ob ∧ ∀ (c : Nat) (k : Bytes), (i'.finish (c :: ob)).2 ≠ .ok k :=
-  C06.own_message_refused_restored specGen (PropAux.validParams_of_mkParams _ hP) hr
+  C06.own_message_refused_restored (G := GEd) specGen (PropAux.validParams_of_mkParams _ hP) hr
 
 /-- `own_message_refused_restored` for Ed25519 with the literal RFC 8032 constants; the parameter set is any one built by `mkParams` (valid by `arb_valid`). -/
 theorem own_message_refused_restored_ed25519_published {mSeed nSeed sSeed : Bytes} {P : Params GEdPub}
     (hP : mkParams GEdPub mSeed nSeed sSeed = .ok P)
     {side : Side} {data : Bytes} {i' : Inst GEdPub} (hr : fromSerialized side data P = .ok i') :
     ∃ ob, i'.outbound = some ob ∧ ∀ (c : Nat) (k : Bytes), (i'.finish (c :: ob)).2 ≠ .ok k :=
-  C06.own_message_refused_restored specPublished (PropAux.validParams_of_mkParams _ hP) hr
+  C06.own_message_refused_restored (G := GEdPub) specPublished (PropAux.validParams_of_mkParams _ hP) hr
 
 /-- **reflection of the message originally sent, after persistence**: `a'` obtained from the started
 session `a` by any number of `from_serialized(serialize())` round trips refuses the message `a` sent -/
@@ -385,7 +385,7 @@ theorem own_start_message_refused_restored_intgroup (IP : IntGroupParams) (hp : 
     {ent : Entropy} {a a' : Inst (intGroup IP)} {m : Bytes}
     (h : (Inst.new side pw idA idB P ent).start = (a, .ok m)) (hr : RestoredFrom a a') :
     ∀ k, (a'.finish m).2 ≠ .ok k :=
-  C06.own_start_message_refused_restored (intGroupSpec IP hp hq hg hctor) (PropAux.validParams_of_mkParams _ hP) hpw hidA hidB h hr
+  C06.own_start_message_refused_restored (G := (intGroup IP)) (intGroupSpec IP hp hq hg hctor) (PropAux.validParams_of_mkParams _ hP) hpw hidA hidB h hr
 
 /-- `own_start_message_refused_restored` for the shipped 1024-bit integer group (generated constants); the parameter set is any one built by `mkParams` (valid by `arb_valid`). -/
 theorem own_start_message_refused_restored_1024 {mSeed nSeed sSeed : Bytes} {P : Params G1024}
@@ -394,7 +394,7 @@ theorem own_start_message_refused_restored_1024 {mSeed nSeed sSeed : Bytes} {P :
     {ent : Entropy} {a a' : Inst G1024} {m : Bytes}
     (h : (Inst.new side pw idA idB P ent).start = (a, .ok m)) (hr : RestoredFrom a a') :
     ∀ k, (a'.finish m).2 ≠ .ok k :=
-  C06.own_start_message_refused_restored spec1024 (PropAux.validParams_of_mkParams _ hP) hpw hidA hidB h hr
+  C06.own_start_message_refused_restored (G := G1024) spec1024 (PropAux.validParams_of_mkParams _ hP) hpw hidA hidB h hr
 
 /-- `own_start_message_refused_restored` for the shipped 2048-bit integer group (generated constants); the parameter set is any one built by `mkParams` (valid by `arb_valid`). -/
 theorem own_start_message_refused_restored_2048 {mSeed nSeed sSeed : Bytes} {P : Params G2048}
@@ -403,7 +403,7 @@ theorem own_start_message_refused_restored_2048 {mSeed nSeed sSeed : Bytes} {P :
     {ent : Entropy} {a a' : Inst G2048} {m : Bytes}
     (h : (Inst.new side pw idA idB P ent).start = (a, .ok m)) (hr : RestoredFrom a a') :
     ∀ k, (a'.finish m).2 ≠ .ok k :=
-  C06.own_start_message_refused_restored spec2048 (PropAux.validParams_of_mkParams _ hP) hpw hidA hidB h hr
+  C06.own_start_message_refused_restored (G := G2048) spec2048 (PropAux.validParams_of_mkParams _ hP) hpw hidA hidB h hr
 
 /-- `own_start_message_refused_restored` for the shipped 3072-bit integer group (generated constants); the parameter set is any one built by `mkParams` (valid by `arb_valid`). -/
 theorem own_start_message_refused_restored_3072 {mSeed nSeed sSeed : Bytes} {P : Params G3072}
@@ -412,7 +412,7 @@ theorem own_start_message_refused_restored_3072 {mSeed nSeed sSeed : Bytes} {P :
     {ent : Entropy} {a a' : Inst G3072} {m : Bytes}
     (h : (Inst.new side pw idA idB P ent).start = (a, .ok m)) (hr : RestoredFrom a a') :
     ∀ k, (a'.finish m).2 ≠ .ok k :=
-  C06.own_start_message_refused_restored spec3072 (PropAux.validParams_of_mkParams _ hP) hpw hidA hidB h hr
+  C06.own_start_message_refused_restored (G := G3072) spec3072 (PropAux.validParams_of_mkParams _ hP) hpw hidA hidB h hr
 
 /-- `own_start_message_refused_restored` for Ed25519 with the constants generated from the current source; the parameter set is any one built by `mkParams` (valid by `arb_valid`). -/
 theorem own_start_message_refused_restored_ed25519 {mSeed nSeed sSeed : Bytes} {P : Params GEd}
@@ -421,7 +421,7 @@ theorem own_start_message_refused_restored_ed25519 {mSeed nSeed sSeed : Bytes} {
     {ent : Entropy} {a a' : Inst GEd} {m : Bytes}
     (h : (Inst.new side pw idA idB P ent).start = (a, .ok m)) (hr : RestoredFrom a a') :
     ∀ k, (a'.finish m).2 ≠ .ok k :=
-  C06.own_start_message_refused_restored specGen (PropAux.validParams_of_mkParams _ hP) hpw hidA hidB h hr
+  C06.own_start_message_refused_restored (G := GEd) specGen (PropAux.validParams_of_mkParams _ hP) hpw hidA hidB h hr
 
 /-- `own_start_message_refused_restored` for Ed25519 with the literal RFC 8032 constants; the parameter set is any one built by `mkParams` (valid by `arb_valid`). -/
 theorem own_start_message_refused_restored_ed25519_published {mSeed nSeed sSeed : Bytes} {P : Params GEdPub}
@@ -430,7 +430,7 @@ theorem own_start_message_refused_restored_ed25519_published {mSeed nSeed sSeed 
     {ent : Entropy} {a a' : Inst GEdPub} {m : Bytes}
     (h : (Inst.new side pw idA idB P ent).start = (a, .ok m)) (hr : RestoredFrom a a') :
     ∀ k, (a'.finish m).2 ≠ .ok k :=
-  C06.own_start_message_refused_restored specPublished (PropAux.validParams_of_mkParams _ hP) hpw hidA hidB h hr
+  C06.own_start_message_refused_restored (G := GEdPub) specPublished (PropAux.validParams_of_mkParams _ hP) hpw hidA hidB h hr
 
 /-! ### non-vacuity -/
 
